@@ -206,6 +206,7 @@ def swap_lr(s):
         return s
     s = s.replace('left', '\0').replace('right', 'left').replace('\0', 'right')
     s = s.replace('Left', '\0').replace('Right', 'Left').replace('\0', 'Right')
+    s = s.replace('index_after', '\0').replace('index_before', 'index_after').replace('\0', 'index_before')
     s = re.sub(r'\blt_', '\1', s)
     s = re.sub(r'\brt_', 'lt_', s)
     s = s.replace('\1', 'rt_')
